@@ -204,12 +204,19 @@ pub fn install_world(w: World) {
     WORLD_PTR.store(g.as_mut().unwrap() as *mut World, Ordering::SeqCst);
 }
 
+/// Non-zero while the model is being consulted or updated: the harness calls into mmtk-core from
+/// there (is_pinned, is_mmtk_object, ...), and those calls must not be scheduling points.
+pub static WORLD_HELD: std::sync::atomic::AtomicUsize = std::sync::atomic::AtomicUsize::new(0);
+
 pub fn with_world<R>(f: impl FnOnce(&mut World) -> R) -> R {
     let mut g = match WORLD.try_lock() {
         Ok(g) => g,
         Err(_) => harness_error("world lock contended (harness bug)".into()),
     };
-    f(g.as_mut().expect("world not installed"))
+    WORLD_HELD.fetch_add(1, Ordering::SeqCst);
+    let r = f(g.as_mut().expect("world not installed"));
+    WORLD_HELD.fetch_sub(1, Ordering::SeqCst);
+    r
 }
 
 // ---------------------------------------------------------------------------------------------
